@@ -21,7 +21,7 @@ CLAIMS = {
             "DESIGN.md 5/C02", "DELEGATED to the trusted semaphore contract: a waiter is completed as soon as a permit is added or the semaphore is closed (liveness/fairness inside tokio is not proved). "),
     "C03": ("Every await inside get()/timeout_get()/try_recycle/try_create/HookVec::apply/apply_timeout gets an explicit unwind successor that runs the real destructors "
             "(extracted Drop bodies); proved per exit: tokens settled (no permit, no slot, users guard fired), object in hand detached once (count invariant I5), and in isolation the exact "
-            "frame: permits, users, max_size unchanged, size reduced only by discarded objects.",
+            "frame: permits, users, max_size unchanged, size reduced only by discarded objects; DropGuard::drop runs its closure and DropGuard::disarm runs nothing (unit dg), which is what the inlining of the users guard presupposes.",
             "DESIGN.md 5/C03", "Real unwinding (panic=abort, double panics) and mutex poisoning are outside the model. "),
     "C04": ("Per-object ghost history: an object returned by get() passed create + all post_create hooks, or all pre_recycle hooks, Manager::recycle and all post_recycle hooks, in registration "
             "order, all Ok (loop invariant on the real HookVec::apply loop, unbounded); any failing/timed-out/cancelled step discards the object with exactly one detach; recycle failures never surface; "
